@@ -125,9 +125,36 @@ def f_rgbColor : Family :=
   { name := "rgbColor", kind := .poly, treeMode := true, treeWalk := true, keys := [[]], nOut := fun _ => 3,
     spec := fun _ _ => zero, specT := fun _ j => rgbColorT j }
 
+/-! `hsvColor(rgb)`: `V = max`, `S = (max − min)/max`, hue by the dominant channel (`60(g−b)/Δ`, `120 + 60(b−r)/Δ`,
+    `240 + 60(r−g)/Δ`, plus 360 when negative); black (max within `epsilon` of 0) gives `(0, 0, max)`.  "Dominant" is decided
+    as the code does, with `equal(channel, max, epsilon)` in the order r, g, b.  Walk mode: the traced tree interleaves the
+    `min`/`max` decisions with the guards differently. -/
+def cR : E := v 0
+def cG : E := v 1
+def cB : E := v 2
+def nearE (a b : E) : C := .and (.le (.sub a b) (.konst .eps)) (.le (.neg (.sub a b)) (.konst .eps))
+def withMax3 (k : E → Tree) : Tree :=
+  .branch (.lt cR cG) (.branch (.lt cG cB) (k cB) (k cG)) (.branch (.lt cR cB) (k cB) (k cR))
+def withMin3 (k : E → Tree) : Tree :=
+  .branch (.lt cG cR) (.branch (.lt cB cG) (k cB) (k cG)) (.branch (.lt cB cR) (k cB) (k cR))
+def hueWrap (h : E) : Tree := .branch (.lt h zero) (.leaf (.add h (.lit 360 1))) (.leaf h)
+def hsvBody (j : Nat) (mn mx : E) : Tree :=
+  let d := E.sub mx mn
+  let k60 : E := .lit 60 1
+  .branch (nearE mx zero) (.leaf (if j = 2 then mx else zero))
+    (if j = 2 then .leaf mx
+     else if j = 1 then .leaf (.div d mx)
+     else .branch (nearE cR mx) (hueWrap (.add zero (.div (.mul k60 (.sub cG cB)) d)))
+       (.branch (nearE cG mx) (hueWrap (.add (.lit 120 1) (.div (.mul k60 (.sub cB cR)) d)))
+         (hueWrap (.add (.lit 240 1) (.div (.mul k60 (.sub cR cG)) d)))))
+def hsvColorT (j : Nat) : Tree := withMin3 fun mn => withMax3 fun mx => hsvBody j mn mx
+def f_hsvColor : Family :=
+  { name := "hsvColor", kind := .frac, treeMode := true, treeWalk := true, divFree := true, keys := [[]], nOut := fun _ => 3,
+    spec := fun _ _ => zero, specT := fun _ j => hsvColorT j }
+
 def families : List Family :=
   [f_ycocgr_rt, f_ycocgr_fwd, f_ycocgr_bwd, f_ycocg_fwd, f_ycocg_bwd, f_ycocg_rt, f_ycocg_rt2, f_ycocgrf_rt, f_ycocgrf_rt2,
-   f_lin2srgb, f_lin2srgb_g, f_srgb2lin, f_srgb2lin_g, f_saturation_grey, f_luminosity, f_rgbColor]
+   f_lin2srgb, f_lin2srgb_g, f_srgb2lin, f_srgb2lin_g, f_saturation_grey, f_luminosity, f_rgbColor, f_hsvColor]
 
 /-- clauses of the property that glm does not satisfy on the pinned tree: recorded findings, proved *false*
     in `Findings/C19.lean`, searched for witnesses by the driver like every other family -/
